@@ -43,13 +43,17 @@ Record quirks := {
   q_call_runs_getter : bool;        (* fixed in 88fe348: _get_attribute did getattr(obj, name) on a property *)
   q_attr_private_unchecked : bool;  (* fixed: __getattr__/__setattr__ requests skipped the privacy test *)
   q_helper_served : bool;           (* open: a callable instance of an @expose'd class stored in an attribute is called *)
-  q_hooks_run : bool                (* open: getattr on the instance runs the class's __getattribute__/__getattr__ hooks *)
+  q_hook_getattribute : bool;       (* open: getattr(obj, name) in the gate runs the class's own __getattribute__ ... *)
+  q_hook_getattr : bool             (* ... and, when the name does not exist, its __getattr__ *)
 }.
+Definition hook_flag (q : quirks) (h : hook) : bool :=
+  match h with HGetattribute => q_hook_getattribute q | HGetattr => q_hook_getattr q end.
+Definition hooks_on (q : quirks) : bool := q_hook_getattribute q || q_hook_getattr q.
 Definition quirks_none :=
-  {| q_call_runs_getter := false; q_attr_private_unchecked := false; q_helper_served := false; q_hooks_run := false |}.
+  {| q_call_runs_getter := false; q_attr_private_unchecked := false; q_helper_served := false; q_hook_getattribute := false; q_hook_getattr := false |}.
 (* the code as it is today (after the two repairs) *)
 Definition quirks_asis :=
-  {| q_call_runs_getter := false; q_attr_private_unchecked := false; q_helper_served := true; q_hooks_run := true |}.
+  {| q_call_runs_getter := false; q_attr_private_unchecked := false; q_helper_served := true; q_hook_getattribute := true; q_hook_getattr := true |}.
 
 Inductive acc := ACall | AGet | ASet | AHelper | AHook.
 Definition acc_eqb (a b : acc) : bool :=
@@ -99,7 +103,7 @@ Definition find_hook (s : shape) (h : hook) : option member :=
   | None => find (fun m => is_hook h m && cls_eqb (m_in m) Base) (s_members s)
   end.
 Definition hook_effect (q : quirks) (s : shape) (h : hook) : list effect :=
-  if q_hooks_run q then match find_hook s h with Some m => [(m, AHook)] | None => [] end else [].
+  if hook_flag q h then match find_hook s h with Some m => [(m, AHook)] | None => [] end else [].
 
 (* attributes every instance has without any class body defining them and that Pyro5 does not reserve: __dict__, __doc__
    (plain values: found by getattr, so __getattr__ is not consulted; never exposed) *)
@@ -381,7 +385,7 @@ Definition legit (s : shape) (k : rkind) (names : list reqname) (m : member) (a 
 Definition allowed (q : quirks) (s : shape) (k : rkind) (names : list reqname) (m : member) (a : acc) : Prop :=
   legit s k names m a \/
   (q_helper_served q = true /\ a = AHelper /\ helper_boundary s k names m) \/
-  (q_hooks_run q = true /\ a = AHook /\ hook_boundary s k names m).
+  (hooks_on q = true /\ a = AHook /\ hook_boundary s k names m).
 (* the two repaired deviations stay repaired *)
 Definition repaired (q : quirks) : Prop := q_call_runs_getter q = false /\ q_attr_private_unchecked q = false.
 End Spec.
@@ -391,10 +395,10 @@ Definition class_of (objs : list nat) (o : nat) : nat := nth o objs 0.
 Definition shape_of (classes : list shape) (objs : list nat) (o : nat) : shape := nth (class_of objs o) classes empty_shape.
 
 (* ---------- recorded witnesses ---------- *)
-Definition q_getter_only := {| q_call_runs_getter := true; q_attr_private_unchecked := false; q_helper_served := false; q_hooks_run := false |}.
-Definition q_private_only := {| q_call_runs_getter := false; q_attr_private_unchecked := true; q_helper_served := false; q_hooks_run := false |}.
-Definition q_helper_only := {| q_call_runs_getter := false; q_attr_private_unchecked := false; q_helper_served := true; q_hooks_run := false |}.
-Definition q_hooks_only := {| q_call_runs_getter := false; q_attr_private_unchecked := false; q_helper_served := false; q_hooks_run := true |}.
+Definition q_getter_only := {| q_call_runs_getter := true; q_attr_private_unchecked := false; q_helper_served := false; q_hook_getattribute := false; q_hook_getattr := false |}.
+Definition q_private_only := {| q_call_runs_getter := false; q_attr_private_unchecked := true; q_helper_served := false; q_hook_getattribute := false; q_hook_getattr := false |}.
+Definition q_helper_only := {| q_call_runs_getter := false; q_attr_private_unchecked := false; q_helper_served := true; q_hook_getattribute := false; q_hook_getattr := false |}.
+Definition q_hooks_only := {| q_call_runs_getter := false; q_attr_private_unchecked := false; q_helper_served := false; q_hook_getattribute := true; q_hook_getattr := true |}.
 (* class T: @expose def ping(self) ...; @property def secret(self) ...    — request: call "secret" *)
 Definition w_ping : member :=
   {| m_id := 0; m_name := [112;105;110;103]%N; m_kind := KMethod; m_in := Sub; m_mark := true;
